@@ -36,7 +36,7 @@ def one(seed, checks):
         if rc != 0:
             # written against an earlier HEAD (before later fix: commits): merge it
             rc, o = sh("git -C %s apply --3way %s" % (repo, os.path.join(V, "seeded", seed, "patch.diff")))
-        assert rc == 0, o
+        assert rc == 0, "%s: %s" % (seed, o)
         gm = os.path.join(ver, "harness", "go.mod")
         s = open(gm).read().replace("=> /repo", "=> " + repo)
         open(gm, "w").write(s)
